@@ -15,6 +15,10 @@ c05.good  <obj> <meshOnly> <plan>                                           -> o
 c05.gstep <dir> read <obj> <plan>                                           -> ok <dir after> <dir returned>
 c05.gstep <dir> save <obj> <meshOnly> <plan>                                -> ok <dir after>
 c05.gstep <dir> crash <obj> <meshOnly> <k> <torn> <plan>                    -> ok <dir after>
+unw  := <n> ((R|W) <file>)*          the clean-up effects traced after the interruption (empty: process death)
+c05.ustep <dir> interrupt <obj> <meshOnly> <k> <torn> <plan> <unw>          -> ok <dir after> <GoodUnwind 0|1>
+c05.ustep <dir> rinterrupt <obj> <k> <torn> <plan> <unw>                    -> ok <dir after> <GoodUnwind 0|1> <dir returned by the read had it not been interrupted>
+c05.unwind <nSteps> <k> <unw>                                               -> ok <GoodUnwind 0|1>
 ``` -/
 namespace Femio.C05
 open Femio.Proto
@@ -78,6 +82,25 @@ def handle : List String → Option String
       let mid ← unwrap x.tag plan
       some s!"ok {showDir (gstep d (.crash x mo mid k torn))}"
     | _ => some "err bad-op"
+  | "c05.ustep" :: rest => do
+    let (d, rest') ← (do let d ← dirP; let rest ← get; set ([] : List String); pure (d, rest) : P _).run rest |>.map (·.1)
+    match rest' with
+    | "interrupt" :: t => do
+      let (x, mo, k, torn, plan, unw) ← run (do
+        let x ← objP; let mo ← bool; let k ← nat; let tn ← bool; let p ← planP x.tag; let u ← planP x.tag
+        pure (x, mo, k, tn, p, u)) t
+      let mid ← unwrap x.tag plan
+      some s!"ok {showDir (ustep d (.interrupt x mo mid k torn unw))} {showBool (GoodUnwind (mid.length + 2) k unw)}"
+    | "rinterrupt" :: t => do
+      let (src, k, torn, plan, unw) ← run (do
+        let x ← objP; let k ← nat; let tn ← bool; let p ← planP x.tag; let u ← planP x.tag; pure (x, k, tn, p, u)) t
+      let mid ← unwrap src.tag plan
+      let ret := (readDirG d src mid).1
+      some s!"ok {showDir (ustep d (.readInterrupt src mid k torn unw))} {showBool (GoodUnwind (mid.length + 2) k unw)} {showDir ret}"
+    | _ => some "err bad-op"
+  | "c05.unwind" :: rest => do
+    let (n, k, unw) ← run (do let n ← nat; let k ← nat; let u ← planP 0; pure (n, k, u)) rest
+    some s!"ok {showBool (GoodUnwind n k unw)}"
   | "c05.step" :: rest => do
     let (cfg, d, rest') ← (do
       let u ← bool; let r ← bool; let d ← dirP; let rest ← get; set ([] : List String); pure ((⟨u, r⟩ : Cfg), d, rest) : P _).run rest |>.map (·.1)
